@@ -311,6 +311,8 @@ def execute(case, ctx):
                 f(5)
                 rk = 'value'
             except BaseException as e:
+                if type(e).__name__ in ('RunTimeout', 'RunTooBig'):
+                    raise
                 rk = classify(e)
             W.model.scopes = [W.model.builtins, W.model.host]
             try:
